@@ -780,6 +780,37 @@ Proof.
   apply (f_equal (@length (option Z))) in Hlt. rewrite !map_length in Hlt. exact Hlt.
 Qed.
 
+(* the positions of a genuine slice are inside the list and pairwise distinct (what an extended-slice
+   ASSIGNMENT needs: every position is written once) *)
+Lemma StronglySorted_lt_NoDup : forall l : list nat, StronglySorted lt l -> NoDup l.
+Proof.
+  induction l as [|x l IH]; intros H; [constructor|].
+  inversion H as [|x' l' Hs Hall]; subst. constructor; [|apply IH; exact Hs].
+  intros Hin. rewrite Forall_forall in Hall. specialize (Hall x Hin). lia.
+Qed.
+
+Lemma StronglySorted_gt_NoDup : forall l : list nat, StronglySorted gt l -> NoDup l.
+Proof.
+  induction l as [|x l IH]; intros H; [constructor|].
+  inversion H as [|x' l' Hs Hall]; subst. constructor; [|apply IH; exact Hs].
+  intros Hin. rewrite Forall_forall in Hall. specialize (Hall x Hin). unfold gt in Hall. lia.
+Qed.
+
+Theorem py_range_positions_NoDup : forall a b c len s e st,
+  py_slice_indices a b c len = Ok (s, e, st) ->
+  st = c /\ c <> 0 /\ NoDup (py_range_positions s e st len) /\
+  (forall p, In p (py_range_positions s e st len) -> (p < len)%nat).
+Proof.
+  intros a b c len s e st H.
+  destruct (py_slice_indices_bounds a b c len s e st H) as (Hst & Hc & _). subst st.
+  destruct (py_range_positions_props a b c len s e H) as (Hlt & Hup & Hdown & _).
+  split; [reflexivity|]. split; [exact Hc|]. split.
+  - destruct (Z_lt_le_dec 0 c) as [Hp|Hp].
+    + apply StronglySorted_lt_NoDup, Hup, Hp.
+    + apply StronglySorted_gt_NoDup, Hdown. lia.
+  - rewrite Forall_forall in Hlt. exact Hlt.
+Qed.
+
 Theorem py_reversed_spec : forall l, py_reversed l = rev l /\ length (py_reversed l) = length l.
 Proof. intros l. split; [reflexivity | apply rev_length]. Qed.
 
@@ -809,4 +840,5 @@ Print Assumptions py_range_positions_nth.
 Print Assumptions py_getslice_positions.
 Print Assumptions py_getslice_length_le.
 Print Assumptions py_getslice_length.
+Print Assumptions py_range_positions_NoDup.
 Print Assumptions py_reversed_spec.
